@@ -88,3 +88,16 @@ pub fn self_test() -> Result<(), String> {
     }
     Ok(())
 }
+
+/// Bitwise CRC-32 (reflected), used only to *generate* plausible message-integrity trailers for
+/// packets with the IC bit set - what an implementation with IC support might expect to see.
+pub fn crc32_reflected(poly_reflected: u32, data: &[u8]) -> u32 {
+    let mut crc = 0xFFFF_FFFFu32;
+    for &b in data {
+        crc ^= b as u32;
+        for _ in 0..8 {
+            crc = if crc & 1 != 0 { (crc >> 1) ^ poly_reflected } else { crc >> 1 };
+        }
+    }
+    !crc
+}
